@@ -16,12 +16,23 @@ import (
 	"gosym/interp"
 )
 
-const (
-	repoDir    = "/repo"
-	verifDir   = "/verif"
-	harnessDir = "/verif/harness"
-	modPath    = "github.com/thanos-community/promql-engine"
+const modPath = "github.com/thanos-community/promql-engine"
+
+// The registered commands always use /repo and /verif. The two environment overrides exist
+// only so that the developer tooling (tools/selftest_mutants.py, seeded-change trials) can
+// run a check against a scratch copy without disturbing /repo or the committed evidence.
+var (
+	repoDir    = envOr("VERIF_REPO", "/repo")
+	verifDir   = envOr("VERIF_DIR", "/verif")
+	harnessDir = verifDir + "/harness"
 )
+
+func envOr(k, def string) string {
+	if v := os.Getenv(k); v != "" {
+		return v
+	}
+	return def
+}
 
 // overlay maps every harness file to a virtual file inside /repo.
 // /verif/harness/sym/*.go           -> /repo/zzverif/sym/*.go
